@@ -16,8 +16,10 @@ package index
 // x 10 preallocation variants: none, or preallocate(m) at position
 // {0, N/2, N} with m in {0, N, 4N}.
 //
-// Oracle (full check): in the thorough tier after EVERY insertion / preallocate
-// call for N <= 400.  In the quick tier, and for the large N, a full check
+// Oracle (full check): in the thorough tier after EVERY insertion that follows
+// an effective preallocate call for N <= 400 (the states before it are the final
+// states of shorter runs, which are always fully checked; every N is a run
+// end).  Otherwise, in the quick tier, and for the large N, a full check
 // is made whenever the canonical state (pattern, number of insertions, bucket
 // count, HAT block size) has not been fully checked before in this shard
 // (N <= 1000), after every change of the bucket count or HAT block size, after
@@ -28,7 +30,8 @@ package index
 //   exactly the inserted entries (multiset, compared on all fields), get()
 //   returns one of them, firstIndex() equals the 1-based position of the key's
 //   first insertion (so it never changes); keys never inserted (same bloom
-//   bit, other bloom bits, one-byte neighbours of present keys) are reported
+//   bit, other bloom bits, one-byte neighbours of present keys, and keys
+//   sharing 24 leading bytes AND the bucket with a present key) are reported
 //   absent by get / firstIndex / valuesWithID; values() yields every entry
 //   exactly once.  Any panic is a violation.
 //
@@ -122,8 +125,30 @@ func verifC56Key(pattern string, i int) restic.ID {
 }
 
 // verifC56Absent: keys that are never inserted.
-func verifC56Absent(mo *verifC56Model) []restic.ID {
+func verifC56Absent(m *indexMap, mo *verifC56Model) []restic.ID {
 	var out []restic.ID
+	// absent keys that share the first 24 bytes (hence the bloom bit) AND the
+	// bucket with a present key: the maphash seed is random, so candidates are
+	// tried until one lands in the same bucket (white-box use of m.hash)
+	if len(mo.order) > 0 && len(m.buckets) > 0 {
+		limit := 16 * len(m.buckets)
+		if limit > 1<<16 {
+			limit = 1 << 16
+		}
+		for _, base := range []restic.ID{mo.order[0], mo.order[len(mo.order)-1]} {
+			hb := m.hash(base)
+			for c := 1; c <= limit; c++ {
+				cand := base
+				cand[31] ^= byte(c)
+				cand[30] ^= byte(c >> 8)
+				cand[29] ^= byte(c >> 16)
+				if m.hash(cand) == hb {
+					out = append(out, cand)
+					break
+				}
+			}
+		}
+	}
 	for j, b0 := range []byte{3, 31, 0, 27, 4, 255, 128} {
 		id := verifC56Hash("absent", j)
 		id[0] = b0
@@ -208,7 +233,7 @@ func verifC56CheckFull(m *indexMap, mo *verifC56Model) (string, string) {
 			return k, msg
 		}
 	}
-	for _, id := range verifC56Absent(mo) {
+	for _, id := range verifC56Absent(m, mo) {
 		if e := m.get(id); e != nil {
 			return "absent-get", fmt.Sprintf("get(%s) of a key never inserted returned an entry (key %s)", id.Str(), e.id.Str())
 		}
@@ -267,7 +292,7 @@ func TestVerif_C56(t *testing.T) {
 	r := vh.Start(t, "C56")
 	defer r.Finish()
 	defer debug.SetGCPercent(debug.SetGCPercent(400)) // many short-lived maps; harness-only tuning
-	r.Rule("every N in 0..400 and N in {1000, 5000} (thorough: + 100000) x 7 key patterns (distinct, equal, pairs, interleaved copies, same bloom bit, every bloom bit, same bloom bit with duplicates) x 10 preallocation variants; the real indexMap is compared with a map[ID][]entry model (thorough: full comparison after every insertion/preallocation for N <= 400; quick: full comparison for every not yet seen canonical state, growth, preallocation and run end, inserted key otherwise); state = (pattern, insertions so far, bucket count, HAT block size); non-trivial = a checked state in which some key has >= 2 entries or the table has grown (buckets > 64 or HAT block size > 4)")
+	r.Rule("every N in 0..400 and N in {1000, 5000} (thorough: + 100000) x 7 key patterns (distinct, equal, pairs, interleaved copies, same bloom bit, every bloom bit, same bloom bit with duplicates) x 10 preallocation variants; the real indexMap is compared with a map[ID][]entry model (thorough: additionally full comparison after every insertion that follows a preallocation for N <= 400; both tiers: full comparison for every not yet seen canonical state, growth, preallocation and run end, inserted key otherwise); state = (pattern, insertions so far, bucket count, HAT block size); non-trivial = a checked state in which some key has >= 2 entries or the table has grown (buckets > 64 or HAT block size > 4)")
 	r.Assume("maphash bucket placement is seeded randomly per map and cannot be fixed; chains are forced by load, not by chosen collisions")
 
 	var ns []int
@@ -315,7 +340,10 @@ func verifC56Run(r *vh.Run, ck, pattern string, v verifC56Variant, n int, shapes
 		shapeChanged := len(m.buckets) != lastBuckets || int(m.blockList.blockSize) != lastBlock
 		lastBuckets, lastBlock = len(m.buckets), int(m.blockList.blockSize)
 		cur := verifC56Shape{pattern, step, len(m.buckets), int(m.blockList.blockSize)}
-		full := (everyStep && r.Thorough()) || shapeChanged || step == n || lastKey == nil || (n <= 1000 && !shapes[cur]) || (n == 1000 && step%97 == 0)
+		// thorough: full comparison after every step once an effective preallocate call has happened;
+		// before that the state equals the final state of a shorter run, which is always fully compared
+		afterPrealloc := v.mul > 0 && (v.pos == 0 || (v.pos == 1 && step >= n/2))
+		full := (everyStep && r.Thorough() && afterPrealloc) || shapeChanged || step == n || lastKey == nil || (n <= 1000 && !shapes[cur]) || (n == 1000 && step%97 == 0)
 		var kind, msg string
 		pn, pmsg := vh.NoPanic(func() {
 			if full {
